@@ -1513,7 +1513,12 @@ class SuccessionDiagram:
         assert self.dag.edges[parent_id, node_id] is not None
         parent_depth = cast(int, self.dag.nodes[parent_id]["depth"])
         current_depth = cast(int, self.dag.nodes[node_id]["depth"])
-        self.dag.nodes[node_id]["depth"] = max(current_depth, parent_depth + 1)
+        if parent_depth + 1 > current_depth:
+            self.dag.nodes[node_id]["depth"] = parent_depth + 1
+            # The depth of this node has increased, which can also
+            # increase the depth of its successors.
+            for s in list(self.dag.successors(node_id)):  # type: ignore
+                self._update_node_depth(s, node_id)
 
     def _expand_one_node(self, node_id: int):
         """
